@@ -118,6 +118,12 @@ fn flush_hook() {
     }
 }
 
+/// a system call follows: entering the kernel drains the store buffer of the thread
+#[inline]
+pub fn syscall() {
+    flush_hook();
+}
+
 /// value <-> bits for the store buffer
 pub trait Bits: Copy {
     fn to_bits(self) -> u64;
